@@ -312,7 +312,8 @@ theorem payments_exact (e : Env) (g : Gas) (hL : e.gasLimit < U64) (s : Settled 
 
 /-- `deduct_caller_inner` without saturation -/
 theorem deduct_exact (e : Env) (d : Nat) (hd : deductAmount e = some d)
-    (hmul : e.gasLimit * e.gasPrice < W) (hfee : ∀ f, calcDataFee e = some f → e.gasLimit * e.gasPrice + f < W) :
+    (hmul : e.gasLimit * e.gasPrice < W)
+    (hfee : enabled e.spec CANCUN = true → ∀ f, calcDataFee e = some f → e.gasLimit * e.gasPrice + f < W) :
     d = e.gasLimit * effectiveGasPrice e +
       (if enabled e.spec CANCUN = true then (calcDataFee e).getD 0 else 0) := by
   have heff := eff_le_gasPrice e
@@ -327,7 +328,7 @@ theorem deduct_exact (e : Env) (d : Nat) (hd : deductAmount e = some d)
     | none => rw [hf] at hd; simp at hd
     | some f =>
       rw [hf] at hd
-      have := hfee f hf
+      have := hfee hc f hf
       simp only [Option.some.injEq] at hd
       rw [← hd]; unfold U256.saturatingAdd; rw [if_pos (by omega)]; simp
   · rw [if_neg hc] at hd ⊢
@@ -383,5 +384,143 @@ theorem balanceCheck_some (e : Env) (c : Nat) (h : balanceCheck e = some c) :
         exact ⟨h1, by omega, by omega⟩
     · rw [if_neg h2] at h; cases h
   · rw [if_neg h1] at h; cases h
+
+
+/-- the blob part of `validate_tx` as a function of its own (the `blobChecks` of `validateEnv`) -/
+theorem validateEnv_none (e : Env) (t : TxShape) (h : validateEnv e t = none) :
+    (enabled e.spec CANCUN = true → e.blobPrice.isSome = true) ∧
+    (enabled e.spec LONDON = true → e.basefee ≤ effectiveGasPrice e) ∧
+    (enabled e.spec CANCUN = false → e.maxFeePerBlobGas = none ∧ e.nBlobs = 0) ∧
+    (∀ m, e.maxFeePerBlobGas = some m → ∃ p, e.blobPrice = some p ∧ p ≤ m ∧
+        (enabled e.spec CANCUN = true → e.nBlobs ≤ 9)) ∧
+    (e.maxFeePerBlobGas = none → e.nBlobs = 0) := by
+  unfold validateEnv at h
+  obtain ⟨h1, h⟩ := ite_some_none h
+  obtain ⟨h2, h⟩ := ite_some_none h
+  obtain ⟨h3, h⟩ := ite_some_none h
+  obtain ⟨h4, h⟩ := ite_some_none h
+  obtain ⟨h5, h⟩ := ite_some_none h
+  obtain ⟨h6, h⟩ := ite_some_none h
+  refine ⟨?_, ?_, ?_, ?_, ?_⟩
+  · intro hc; rw [hc] at h1
+    cases hb : e.blobPrice with
+    | none => rw [hb] at h1; simp at h1
+    | some p => rfl
+  · intro hl; rw [hl] at h4; simp at h4; exact h4
+  · intro hc; rw [hc] at h6
+    cases hm : e.maxFeePerBlobGas with
+    | none => rw [hm] at h6; simp at h6; exact ⟨rfl, h6⟩
+    | some m => rw [hm] at h6; simp at h6
+  · intro m hm
+    rw [hm] at h
+    simp only at h
+    cases hb : e.blobPrice with
+    | none => rw [hb] at h; simp at h
+    | some p =>
+      rw [hb] at h
+      simp only at h
+      by_cases hp : p > m
+      · rw [if_pos hp] at h; simp at h
+      · rw [if_neg hp] at h
+        by_cases hn : e.nBlobs = 0
+        · rw [if_pos hn] at h; simp at h
+        · rw [if_neg hn] at h
+          by_cases hcr : t.isCreate = true
+          · rw [if_pos hcr] at h; simp at h
+          · rw [if_neg hcr] at h
+            refine ⟨p, rfl, by omega, ?_⟩
+            intro hc
+            rw [hc] at h
+            by_cases hpr : enabled e.spec PRAGUE = true
+            · rw [hpr] at h; simp at h
+              by_cases hgt : 9 < e.nBlobs
+              · rw [if_pos hgt] at h; simp at h
+              · omega
+            · have : enabled e.spec PRAGUE = false := by simpa using hpr
+              rw [this] at h; simp at h
+              by_cases hgt : 6 < e.nBlobs
+              · rw [if_pos hgt] at h; simp at h
+              · omega
+  · intro hm
+    rw [hm] at h
+    simp only at h
+    by_cases hn : e.nBlobs = 0
+    · exact hn
+    · simp [hn] at h
+
+
+theorem satmul_mono (a b c : Nat) (h : a ≤ b) : U256.saturatingMul a c ≤ U256.saturatingMul b c := by
+  have hm : a * c ≤ b * c := Nat.mul_le_mul_right c h
+  unfold U256.saturatingMul
+  by_cases hb : b * c < W
+  · rw [if_pos hb, if_pos (by omega)]; exact hm
+  · rw [if_neg hb]
+    by_cases ha : a * c < W
+    · rw [if_pos ha]; omega
+    · rw [if_neg ha]; omega
+
+theorem totalBlobGas_zero (e : Env) (h : e.nBlobs = 0) : totalBlobGas e = 0 := by
+  unfold totalBlobGas U64ops.wmul; rw [h]; rfl
+
+theorem satmul_zero (a : Nat) : U256.saturatingMul a 0 = 0 := by
+  have hW := W_val
+  unfold U256.saturatingMul; rw [if_pos (by omega)]; omega
+
+/-- initial-gas model: before Prague the floor is 0 -/
+theorem floor_pre_prague (spec : Nat) (input : List Nat) (cr : Bool) (al : List Nat) (n i fl : Nat)
+    (h : Revm.Model.GasCalc.calculateInitialTxGas spec input cr al n = some (i, fl))
+    (hp : enabled spec PRAGUE = false) : fl = 0 := by
+  unfold Revm.Model.GasCalc.calculateInitialTxGas at h
+  simp only [hp] at h
+  split at h
+  · cases h
+  · simp at h; exact h.2.symm
+
+
+/-- from Cancun a validated transaction's blob fee is covered by the validated maximum -/
+theorem dataFee_covered (e : Env) (t : TxShape) (h : validateEnv e t = none)
+    (hc : enabled e.spec CANCUN = true) :
+    ∃ f, calcDataFee e = some f ∧ f ≤ (calcMaxDataFee e).getD 0 := by
+  obtain ⟨h1, _, _, h4, h5⟩ := validateEnv_none e t h
+  have hb := h1 hc
+  cases hp : e.blobPrice with
+  | none => rw [hp] at hb; cases hb
+  | some p =>
+    refine ⟨U256.saturatingMul p (totalBlobGas e), by unfold calcDataFee; rw [hp], ?_⟩
+    cases hm : e.maxFeePerBlobGas with
+    | none =>
+      rw [totalBlobGas_zero e (h5 hm), satmul_zero]; omega
+    | some m =>
+      obtain ⟨p', hp', hle, _⟩ := h4 m hm
+      rw [hp] at hp'
+      cases hp'
+      have : (calcMaxDataFee e).getD 0 = U256.saturatingMul m (totalBlobGas e) := by
+        unfold calcMaxDataFee; rw [hm]; rfl
+      rw [this]; exact satmul_mono _ _ _ hle
+
+theorem validate_none (e : Env) (t : TxShape) (i fl bal : Nat) (h : validate e t i fl bal = none) :
+    validateEnv e t = none ∧ validateInitialGas e i fl = none ∧ validateAgainstState e bal = none := by
+  unfold validate at h
+  cases h1 : validateEnv e t with
+  | some r => rw [h1] at h; cases h
+  | none =>
+    rw [h1] at h
+    simp only at h
+    cases h2 : validateInitialGas e i fl with
+    | some r => rw [h2] at h; cases h
+    | none => rw [h2] at h; exact ⟨rfl, rfl, h⟩
+
+theorem pipeline_some (e : Env) (fl k : Nat) (fr : FrameRes) (o : Out) (h : pipeline e fl k fr = some o) :
+    deductAmount e = some o.deducted ∧ o.gas = finalGas e fl k fr ∧ o.gasUsed = gasUsed o.gas ∧
+    o.gasRefunded = gasRefunded o.gas ∧ o.reimbursed = reimburseAmount e o.gas ∧
+    o.reward = rewardAmount e o.gas := by
+  unfold pipeline at h
+  cases hd : deductAmount e with
+  | none => rw [hd] at h; cases h
+  | some d =>
+    rw [hd] at h
+    simp only [Option.some.injEq] at h
+    subst h
+    exact ⟨rfl, rfl, rfl, rfl, rfl, rfl⟩
 
 end Revm.Proofs.TxGas
